@@ -2,5 +2,5 @@ import Srsim.Spec.ModifierProp
 def comp : Component ModAdapter.DSt where
   init := {}
   step := ModAdapter.stepRec
-  prop := ModifierProp.checkC05
+  prop := ModifierProp.checkC06
 def main (args : List String) : IO Unit := Driver.main comp args
